@@ -1,8 +1,10 @@
 (* C29 — Entries committed by a leader survive every later leader.
    Pinned statements only; proofs in theories/RaftProofs.v; model theories/Raft.v.
 
-   `rv : raftrev` is the revision of the election code (Raft.v; `rr_pinned` before, `rr_fixed` after the two
-   election repairs of C27); the check compares the code with the model of the revision found in the source tree.
+   `rv : raftrev` is the revision of raft.rs (Raft.v): `rr_pinned` before all repairs, `rr_before_ack_fix` after the
+   two election repairs of C27, `rr_fixed` after these and the acknowledgement repair `fix_ack_term` ("a leader counts
+   only acknowledgements of its current term", fixes/C28-count-only-current-term-acks.diff); the check compares the code
+   with the model of the revision found in the source tree.
 
    FULL STATEMENT (false of the faithful model of every revision):
      forall size evs, leader_completeness (c_hist (run rv size evs))
@@ -13,8 +15,10 @@
    What is machine-checked:
    * the refutation, split by cause; `classes h` = (double vote, stale vote counted, ack from diverged log,
      old-term commit, ack below voted term), plus a THIRD log-replication class found while attempting the
-     conditional proof, `commit-without-quorum` (RaftLog.v);
-   * the CONDITIONAL THEOREM `C29_partial` for the code in /repo (rr_fixed): if none of the three log-replication
+     conditional proof, `commit-without-quorum` (RaftLog.v) — the class removed by the acknowledgement repair: its
+     witness is stated for the revisions without that repair, and the same event list is harmless under `rr_fixed`
+     (`C29_commit_noquorum_witness_harmless_fixed`);
+   * the CONDITIONAL THEOREM `C29_partial` for rr_fixed: if none of the three log-replication
      classes occurs, every entry committed by a leader of term t is in the log of every later leader of a HIGHER
      term; `C29_partial_literal` gives the literal statement under one more hypothesis that excludes a harmless
      situation (a stale candidate becomes Leader of an OLDER term after the commit), and
@@ -59,25 +63,47 @@ Print Assumptions C29_refuted_ack_below_vote.
    index at which fewer than size/2+1 nodes of its term hold its entry — commit() counts rows of the peer table
    that are not acknowledgements of the current term (rows are never reset on election, update_node writes them
    from the peer's own requests, response() accepts acknowledgements of any term).
-   Every revision: a 5-node history with one leader per term in which NONE of the five classes of `classes` occurs
+   Every revision WITHOUT the acknowledgement repair (in particular `rr_before_ack_fix` = the code before the patch):
+   a 5-node history with one leader per term in which NONE of the five classes of `classes` occurs
    ends with a new leader that lacks a leader-committed entry (corpus/C29/commit_noquorum.txt). *)
-Theorem C29_refuted_commit_noquorum : forall rv,
+Theorem C29_refuted_commit_noquorum : forall rv, fix_ack_term rv = false ->
   exists size evs, let h := c_hist (run rv size evs) in
     size <> 1 /\ election_safety h /\ classes h = (false, false, false, false, false) /\
     commit_noquorum_b rv size evs = true /\ ~ leader_completeness h.
 Proof. exact RaftLogProofs.C29_refuted_commit_noquorum. Qed.
 Print Assumptions C29_refuted_commit_noquorum.
 
-(* hence "no acknowledgement from a diverged log and no old-term commit" does NOT imply the property *)
-Theorem C29_two_classes_not_enough : forall rv,
+Theorem C29_refuted_commit_noquorum_before_ack_fix :
+  exists size evs, let h := c_hist (run rr_before_ack_fix size evs) in
+    size <> 1 /\ election_safety h /\ classes h = (false, false, false, false, false) /\
+    commit_noquorum_b rr_before_ack_fix size evs = true /\ ~ leader_completeness h.
+Proof. exact RaftLogProofs.C29_refuted_commit_noquorum_before_ack_fix. Qed.
+Print Assumptions C29_refuted_commit_noquorum_before_ack_fix.
+
+(* hence, before the acknowledgement repair, "no acknowledgement from a diverged log and no old-term commit" does NOT
+   imply the property *)
+Theorem C29_two_classes_not_enough : forall rv, fix_ack_term rv = false ->
   ~ (forall size evs, size <> 1 ->
        ack_diverged_b (c_hist (run rv size evs)) = false -> old_term_commit_b (c_hist (run rv size evs)) = false ->
        leader_completeness (c_hist (run rv size evs))).
 Proof. exact two_classes_not_enough_C29. Qed.
 Print Assumptions C29_two_classes_not_enough.
 
+(* the SAME event lists (corpus/C28/commit_noquorum.txt, corpus/C29/commit_noquorum.txt) under the repaired revision:
+   every leader holds every entry committed by an earlier leader (literal reading), all nodes agree on what they
+   committed, one leader per term, nothing committed without a quorum *)
+Example C29_commit_noquorum_witness_harmless_fixed :
+  (let c := run rr_fixed w28_commit_noquorum_n w28_commit_noquorum in
+   committed_agree c /\ leader_completeness (c_hist c) /\ election_safety (c_hist c) /\
+   commit_noquorum_b rr_fixed w28_commit_noquorum_n w28_commit_noquorum = false) /\
+  (let c := run rr_fixed w29_commit_noquorum_n w29_commit_noquorum in
+   committed_agree c /\ leader_completeness (c_hist c) /\ election_safety (c_hist c) /\
+   commit_noquorum_b rr_fixed w29_commit_noquorum_n w29_commit_noquorum = false).
+Proof. exact commit_noquorum_witnesses_harmless_fixed. Qed.
+Print Assumptions C29_commit_noquorum_witness_harmless_fixed.
+
 (* ------------------------------------------------------------------ the CONDITIONAL THEOREM
-   PROVED for the repaired election code (rr_fixed = the code in /repo), every cluster size other than 1 and every
+   PROVED for the repaired code (rr_fixed), every cluster size other than 1 and every
    adversarial event list (proof: RaftLogWf.v, RaftLogMatch.v, RaftLogHand.v, RaftLogLC.v — log matching, then the
    inductive invariant LC; C27_election_safety and the election invariants J, K are used at every step):
 
